@@ -146,4 +146,12 @@ def centre (pos : Nat → V3 R) (f : List Nat) : V3 R :=
 def centres (pos : Nat → V3 R) (faces : List (List Nat)) : List (V3 R) :=
   (faces.filter (fun f => f.length != 3)).map (centre pos)
 
+/-- the cell that `initial_triangulation::triangulate_surface` samples: the coarse mesh through `convert_mesh_to_cell`
+    (`nodes` = number of nodes of the input, `pos` = positions of the input nodes followed by the centres).  Whether the
+    integrity tests and the outward orientation are applied is read from the source. -/
+def sampledSurface (pos : Nat → V3 R) (nodes : Nat) (faces : List (List Nat)) : Except InitErr (List Tri) :=
+  let T := coarseFaces nodes faces
+  let n := nodes + (faces.filter (fun f => f.length != 3)).length
+  if coarseMeshChecked then accept pos n T else .ok T
+
 end Simu.Gate
